@@ -22,7 +22,7 @@ def build_session(rng, sid, cfgdir, pid, nev, cfg=None, secack=None):
         if i == 0: paths[b["id"]] = []
         elif rng.random() < 0.85: paths[b["id"]] = [i] if not (i >= 2 and cfg["boards"][1]["uid"][0] & 0x80 and cfg["boards"][1]["id"] in paths and rng.random() < 0.5) else [1, i]
     s = g.Session(sid, cfg, cfgdir, paths=paths, full=True)
-    wu, wc, wt, wf = PROFILE[pid]
+    wu, wc, wt, wf = PROFILE[pid]; holds = []
     kinds = ["up"] * wu + ["hl"] * wc + ["tick"] * wt + ["flush"] * wf
     for _ in range(nev):
         k = rng.choice(kinds)
@@ -37,7 +37,15 @@ def build_session(rng, sid, cfgdir, pid, nev, cfg=None, secack=None):
             fn, sa, i = g.rand_command(rng, s); s.hl(fn, sa, i)
         elif k == "tick": s.tick(rng.choice([1, 2, 3]))
         else: s.flush()
+        if pid == "C17" and rng.random() < 0.15 and len(holds) < 6: holds.append(s.hold())
+        if pid == "C17" and holds and rng.random() < 0.15: s.held(rng.choice(holds))
     s.flush()
+    if pid == "C17":
+        holds.append(s.hold())
+        for k in holds: s.held(k)
+        s.stop()                                   # results must survive bidib_stop unchanged
+        for k in holds: s.held(k)
+        for k in holds: s.release(k)               # each result is freed exactly once (ASan / LSan watch)
     return s.end()
 
 def classify(ev):
@@ -149,6 +157,26 @@ def _run(ctx, pid, thorough, rng, exe, tmp):
             (" / invariant %s violated" % r.violation) if r.violation else "")
         ctx.violation(what, {"kind": "trace", "module": "Trace_Track.tla", "cfg": "Trace_Track.cfg", "script": s.s.text(), "config": s.cfg,
                              "events": ev, "refused_at": k})
+    # C17 "no uninitialised field": the same kind of session on a plain -O0 build under Valgrind Memcheck; the driver
+    # prints every field of every result, so reading an undefined field is reported at the print (auxiliary detector,
+    # DESIGN.md section 9: definedness is not a value a trace can carry)
+    if pid == "C17":
+        try:
+            exe_p = build.build("plain")
+            vs = [build_session(rng, "vg%d" % i, os.path.join(tmp, "vg%d" % i), "C17", 25) for i in range(6 if thorough else 2)]
+            vres = drv.run(exe_p, [x.s for x in vs], valgrind=True, timeout=900)
+            gl = next(iter(vres.values())).global_stderr if vres else ""
+            blocks = [b for b in re.split(r"\n==\d+== \n", gl) if "ninitialised" in b or "Invalid free" in b or "Invalid read" in b or "Invalid write" in b]
+            ctx.cov["memcheck_sessions"] = len(vs); ctx.cov["memcheck_reports"] = len(blocks)
+            for x in vs:
+                rr = vres.get(x.sid)
+                if rr is None or rr.status != "ok" and not blocks:
+                    ctx.infra_fail("memcheck session %s ended with %s" % (x.sid, rr.status if rr else "missing"))
+            if blocks:
+                ctx.violation("Valgrind Memcheck: a query result holds an undefined / invalid value: " + " | ".join(l.strip() for l in blocks[0].splitlines()[:8])[:900],
+                              {"kind": "memcheck", "script": vs[0].s.text(), "config": vs[0].cfg, "report": "\n\n".join(blocks[:5])[:8000]})
+        except build.BuildError as ex:
+            ctx.infra_fail("plain build failed: %s" % ex)
     for s, ev in items[:2]:
         ctx.sample({"session": s.sid, "events": [{x: e[x] for x in e if x not in ("st", "cfg")} for e in ev[1:8]]})
     ctx.cov["rule"] = ("cases = events executed on the real library in normal mode; distinct = distinct (event kind, message type or function, "
